@@ -383,6 +383,7 @@ def run_lemma(path, lemma_name, tier="quick"):
         st.frames.pop()
         fr = Frame(vars, f, mi, None, is_harness=True)
         st.frames.append(fr)
+        st.const = False  # the lemma's own state (and its forks); constant evaluations use throw-away states
         ends = []
         for st1, ctrl in I.ex_block(node.body, st):
             I.stats["paths"] += 1
